@@ -197,6 +197,31 @@ def _descend_calls(fn):
     return sorted(out, key=_pos)
 
 
+def _field_of(arg, p, fn):
+    """which attribute of the node parameter p an argument stands for (directly, or through a
+    local bound once to p.<field>)"""
+    if isinstance(arg, ast.Attribute) and unparse(arg.value) == p:
+        return arg.attr
+    if isinstance(arg, ast.Name):
+        defs = [s_.value for s_ in iter_own(fn) if isinstance(s_, ast.Assign) and any(
+            isinstance(t_, ast.Name) and t_.id == arg.id for t_ in s_.targets)]
+        if len(defs) == 1:
+            return _field_of(defs[0], p, fn)
+    return None
+
+
+def _helper_of(call, vis, p):
+    """(helper function, its node parameter) if `call` is self.<private helper>(p, ...) of the
+    visitor class that itself descends"""
+    if not (isinstance(call, ast.Call) and is_self_attr(call.func) and call.func.attr.startswith('_')
+            and call.func.attr in vis and call.args and unparse(call.args[0]) == p):
+        return None
+    h = vis[call.func.attr]
+    if not _descend_calls(h):
+        return None
+    return h, h.args.args[1].arg
+
+
 def _check_process(ctx, m, fn, q, kind, fields, vname, vis):
     p = fn.args.args[1].arg
     dcalls = _descend_calls(fn)
@@ -208,13 +233,42 @@ def _check_process(ctx, m, fn, q, kind, fields, vname, vis):
                                                            ast.GeneratorExp))
                                             for x in parents(c) if x is not fn
                                             and _inside(x, fn))]
-    # which field does each descend call take?
+    # which field does each descend call take?  (descend calls of a private helper that is
+    # called with the node are counted at the position of that call)
     seen = []
-    for c in dcalls:
-        a0 = c.args[0] if c.args else None
-        fld = a0.attr if isinstance(a0, ast.Attribute) and unparse(a0.value) == p else None
-        helper = c.func.attr
-        seen.append((fld, helper, c))
+    result_of = {}       # id(expression in fn that carries the result) -> field
+    calls_in_order = sorted([c for c in iter_own(fn) if isinstance(c, ast.Call)], key=_pos)
+    for c in calls_in_order:
+        if c in dcalls:
+            fld = _field_of(c.args[0], p, fn) if c.args else None
+            seen.append((fld, c.func.attr, c))
+            result_of[id(c)] = fld
+            continue
+        hh = _helper_of(c, vis, p)
+        if hh is not None:
+            h, hp = hh
+            hcond = [x for x in _descend_calls(h) if any(isinstance(y, (ast.If, ast.For, ast.While, ast.Try,
+                                                                      ast.IfExp, ast.BoolOp))
+                                                       for y in parents(x) if y is not h and _inside(y, h))]
+            cond += hcond
+            hseen = []
+            for hc in _descend_calls(h):
+                fld = _field_of(hc.args[0], hp, h) if hc.args else None
+                seen.append((fld, hc.func.attr, hc))
+                hseen.append((fld, hc))
+            # what the helper returns: a tuple of descend results -> item i carries field f
+            hrets = [r_ for r_ in iter_own(h) if isinstance(r_, ast.Return) and r_.value is not None]
+            if len(hrets) == 1:
+                elts = hrets[0].value.elts if isinstance(hrets[0].value, ast.Tuple) else [hrets[0].value]
+                hlocal = {}
+                for s_ in iter_own(h):
+                    if isinstance(s_, ast.Assign) and len(s_.targets) == 1 and isinstance(s_.targets[0], ast.Name):
+                        hlocal[s_.targets[0].id] = s_.value
+                flds = []
+                for e_ in elts:
+                    src = hlocal.get(e_.id) if isinstance(e_, ast.Name) else e_
+                    flds.append(next((f_ for f_, hc in hseen if hc is src), None))
+                result_of[id(c)] = tuple(flds)
     got = [f for f, h, c in seen]
     ok_fields = got == fields
     why = ''
@@ -266,10 +320,21 @@ def _check_process(ctx, m, fn, q, kind, fields, vname, vis):
         val = kwarg(vc, want_kw)
         ok = False
         if val is not None:
-            if val is c:
+            if result_of.get(id(val)) == fld:
                 ok = True
-            elif isinstance(val, ast.Name) and local_src.get(val.id) is c:
-                ok = True
+            elif isinstance(val, ast.Name):
+                src = local_src.get(val.id)
+                if src is not None and result_of.get(id(src)) == fld:
+                    ok = True
+                else:
+                    # bound by tuple-unpacking the result of a helper: position i of the targets
+                    for s_ in iter_own(fn):
+                        if isinstance(s_, ast.Assign) and isinstance(s_.targets[0], (ast.Tuple, ast.List)):
+                            names_ = [unparse(t_) for t_ in s_.targets[0].elts]
+                            rr = result_of.get(id(s_.value))
+                            if val.id in names_ and isinstance(rr, tuple) and len(rr) == len(names_) \
+                                    and rr[names_.index(val.id)] == fld:
+                                ok = True
         ctx.decide('V2', ok, m, vc, 'result of descending into %s passed as %s' % (fld, want_kw),
                    'the results of the children in %s do not reach %s(..., %s=...): the parent '
                    'gets missing or foreign child results' % (fld, vname, want_kw),
